@@ -161,7 +161,7 @@ def hintOk (missing : Nat) : Option Nat → Bool
 
 def fnv (h : UInt64) (x : Nat) : UInt64 := (h ^^^ UInt64.ofNat x) * 1099511628211
 
-def cutAll (m : Message) : String := Id.run do
+def cutAll (m : Message) (step : Nat := 1) : String := Id.run do
   if m.asBytesPanics then return "PANIC"
   let bs := m.asBytes
   let w := m.storageHeader.isSome
@@ -170,6 +170,7 @@ def cutAll (m : Message) : String := Id.run do
   let mut nbad := 0
   let mut h : UInt64 := 14695981039346656037
   for k in [0:n] do
+    if !(step == 1 || k < 64 || k + 64 ≥ n || k % step == 0) then continue
     let pre := bs.take k
     let r := dltMessage pre none w
     let okMsg := match r with
@@ -415,6 +416,17 @@ def junk (j : Bytes) (m : Message) (sfx : Bytes) : String :=
       | _, _ => false
     s!"same={pBool same} {pClass a}"
 
+def junkF (f : Option ProcessedFilter) (j : Bytes) (m : Message) (sfx : Bytes) : String :=
+  if m.asBytesPanics then "PANIC"
+  else
+    let a := dltMessage (j ++ m.asBytes ++ sfx) f true
+    let b := dltMessage (m.asBytes ++ sfx) f true
+    let same := match a, b with
+      | .ok (.item m1, r1), .ok (.item m2, r2) => m1 == m2 && r1 == r2 && m1 == m && r1 == sfx
+      | .ok (.filteredOut n1, r1), .ok (.filteredOut n2, r2) => n1 == n2 && r1 == r2 && r1 == sfx
+      | _, _ => false
+    s!"same={pBool same} {pClass a}"
+
 /-- repeated parsing in storage mode -/
 def parseLoop : Nat → Bytes → List ParsedMessage
   | 0, _ => []
@@ -486,23 +498,35 @@ def dispatch (op : String) (args : List String) : Except String String :=
   | "SKIPSH" => do let bs ← run bytes args; pure (pSkipSh (skipStorageHeader bs))
   | "FWD" => do
     let bs ← run bytes args
+    -- the index-based Spec search is quadratic on lists: not evaluated on very long inputs
     pure (pFwd (forwardToNextStorageHeader bs) ++ " @@ spec=" ++
-      (match Spec.firstPattern bs with | none => "none" | some n => s!"some {n} rest={bs.length - n}"))
+      (if bs.length > 20000 then "skip" else
+       match Spec.firstPattern bs with | none => "none" | some n => s!"some {n} rest={bs.length - n}"))
   | "JUNK" => do
     let (j, m, sfx) ← run (do let j ← bytes; let m ← message; let s ← bytes; pure (j, m, s)) args
     pure (junk j m sfx)
+  | "JUNKF" => do
+    let (f, j, m, sfx) ← run (do
+      let f ← opt filter; let j ← bytes; let m ← message; let s ← bytes; pure (f, j, m, s)) args
+    pure (junkF f j m sfx)
   | "STREAM" => do
     let items ← run (do
       let n ← nat
       many (do let j ← bytes; let m ← message; pure (j, m)) n) args
     pure (stream items)
   | "CUTALL" => do let m ← run message args; pure (cutAll m ++ " @@ wf=" ++ pBool m.wf)
+  | "CUTS" => do
+    let (step, m) ← run (do let s ← nat; let m ← message; pure (s, m)) args
+    pure (cutAll m (max step 1) ++ " @@ wf=" ++ pBool m.wf)
   | "STABLE" => do
     let (w, bs) ← run (do let w ← bool; let b ← bytes; pure (w, b)) args
     pure (stable w bs)
   | "ARGLEN" => do let a ← run argument args; pure (argLen a)
   | "VALID" => do let a ← run argument args; pure s!"valid={pBool a.valid}"
   | "NEW" => do
+    let (c, sh) ← run (do let c ← messageConfig; let sh ← opt storageHeader; pure (c, sh)) args
+    pure (newMsg c sh)
+  | "NEWX" => do
     let (c, sh) ← run (do let c ← messageConfig; let sh ← opt storageHeader; pure (c, sh)) args
     pure (newMsg c sh)
   | "ADDSH" => do
